@@ -183,7 +183,7 @@ RULES = {
            "to live delivery and up to 14 store appends is a rapid-generated sequence of {open, step k gates, fail a send, put, cancel, re-connect of a live client while a send to its first connection is pending, completion/failure of the pending send of a stream that has already returned}. Oracle: the sequence of rounds handed to Send (up to the first failed send) is start, start+1, ... "
            "without skip or repeat, each equal to the stored beacon; at the end every live stream, run to quiescence, has delivered up to the store head; a start beyond the head is refused. "
            "Non-trivial: a put while some stream was still in its catch-up phase, >= 2 concurrent streams, or a reconnect; distinct by back-end + H + action history.",
-    "C10": "sync: one real node (scheme in 5, 3 back-ends, chained/unchained) at height h in {0,1,3,8} with a clock h+{1,2,5,12} rounds ahead catches up (Handler.Catchup + tick-triggered re-requests) from 1-5 scripted peers, each drawn from "
+    "C10": "follow: a daemon holding only a key pair follows a chain (BeaconProcess.StartFollowChain, in-package, scripted peers behind the gateway): 1-4 peers drawn from {honest & ahead, honest but behind, refuses, silent, closes after k, bad signature / relabelled round / other chain's signature at position k}, some serving ANOTHER chain's info, honest ones optionally unavailable for their first 1-2 calls, target = peer head or none (keep following: the honest peers get 3 more rounds), pinned hash optionally matching nobody. Oracle: the follower's store is consecutive from 0 and verifies under the pinned chain; with an honest-ahead peer it reaches the target / keeps following (bounded real-time wait, retry pause = 1 s); with a hash nobody serves nothing is stored. sync: one real node (scheme in 5, 3 back-ends, chained/unchained) at height h in {0,1,3,8} with a clock h+{1,2,5,12} rounds ahead catches up (Handler.Catchup + tick-triggered re-requests) from 1-5 scripted peers, each drawn from "
            "{honest & ahead, honest but behind, refuses, silent, stalls after k, closes after k, bad signature, relabelled round, skipped round, repeated round, swapped order, group-signed wrong previous signature, foreign beacon id, "
            "truncated signature, other chain's key} lying at position 0..4. Oracle: every Put verifies (own digest + key), Put history consecutive, never beyond what an honest peer holds; with an honest-ahead peer the store reaches the goal "
            "within 80 periods of fake time (re-tried with a longer quiescence window before it counts). check/repair: a node holding a verified chain of 6-40 rounds; 1-5 rounds of the BASE store deleted / overwritten with garbage / with another "
